@@ -17,7 +17,9 @@ CFG = {
             "height patterns (0..4 items, heights 1..3) x viewports {0,1,2,3,5} x (gap, cursor gutter) in "
             "{(0,off),(0,on),(1,off),(2,on)}; an upward-scroll family; a replacement family (gaps 0..3 evenly, heights 0..6, "
             "the builder replaced often between pending scrolls of both signs, wheel events and selection changes); random "
-            "long histories with item replacement, heights up to 9, gaps 0..3. distinct = whole op history; non-trivial = "
+            "long histories with item replacement, heights up to 9, gaps 0..3, and (round 3) arbitrary events delivered to CaptureEvent / "
+            "HandleEvent (j, Down, k, Up, another key, wheel up/down, another button, a key to HandleEvent, a mouse event to CaptureEvent, "
+            "FocusIn; a fifth of them with DisableEventHandlers set). distinct = whole op history; non-trivial = "
             "anything but the constructor line.",
     "trusted_base": [
         "vaxis.Characters (uniseg segmentation, widths) is a parameter of the pager model: the harness passes the characters",
